@@ -460,6 +460,150 @@ Section VP.
     - destruct (check_pid_ok _ _ _ _ HI C) as [_ [_ [_ [Hps _]]]].
       rewrite <- Hps, nth_error_map, N. reflexivity.
   Qed.
+
+  (* ----- ANY history: several live value objects may be bound to one (file prefix, key) -----
+     (an application that keeps a labels() child while the label set is removed and created again, or declares a
+     metric twice, has two live value objects for one series).  The caches of such objects may disagree with the file,
+     so Inv does not hold; what survives without wf_hist is the BINDING invariant: every live value object is bound to
+     the file of the identity the closure last saw - and the identity check re-binds every one of them. *)
+  Definition Bound (pid : str) (v : value) : Prop := v_file F v = (prefix_of (v_params F v), pid).
+  Definition BInv (st : state) : Prop :=
+    FilesOK (st_pid F st) (st_files F st) /\ Forall (Bound (st_pid F st)) (st_values F st).
+
+  Lemma BInv_init pid : BInv (init_state F pid).
+  Proof. split; cbn; [intros ? ? H; discriminate | constructor]. Qed.
+
+  Lemma Inv_BInv st d : Inv st d -> BInv st.
+  Proof. intros [HF [HV _]]. split; [exact HF|]. eapply Forall_impl; [|exact HV]. intros v [H _]. exact H. Qed.
+
+  Lemma VOK_Bound pid d vs : Forall (VOK pid d) vs -> Forall (Bound pid) vs.
+  Proof. intros H. eapply Forall_impl; [|exact H]. intros v [H1 _]. exact H1. Qed.
+
+  Lemma check_pid_any st d st1 d1 : BInv st -> check_pid st d = (st1, d1) ->
+    BInv st1 /\ st_pid F st1 = st_actual F st /\ st_actual F st1 = st_actual F st
+    /\ map (v_params F) (st_values F st1) = map (v_params F) (st_values F st) /\ Ext (st_actual F st) d d1.
+  Proof.
+    intros [HF HB]. unfold Values.check_pid.
+    destruct (str_eqb (st_pid F st) (st_actual F st)) eqn:E.
+    - intros H; inversion H; subst. apply str_eqb_eq in E.
+      split; [split; assumption|]. split; [assumption|]. split; [reflexivity|]. split; [reflexivity|apply Ext_refl].
+    - destruct (reset_all (st_actual F st) [] d (st_values F st)) as [[f2 d2] vs'] eqn:R.
+      intros H; inversion H; subst; clear H. unfold BInv. cbn [st_pid st_actual st_files st_values].
+      assert (HF0 : FilesOK (st_actual F st) []) by (intros ? ? H; discriminate).
+      destruct (reset_all_ok _ _ _ _ _ _ _ HF0 R) as [HF2 [E2 [P2 V2]]].
+      split; [split; [assumption|eapply VOK_Bound; eassumption]|].
+      split; [reflexivity|]. split; [reflexivity|]. split; assumption.
+  Qed.
+
+  Lemma Forall_upd_nth {A} (P : A -> Prop) (l : list A) i x : Forall P l -> P x -> Forall P (upd_nth l i x).
+  Proof.
+    intros H Hx. revert i. induction H as [|y r Hy Hr IH]; intros i; cbn [Values.upd_nth]; [constructor|].
+    destruct i; constructor; auto.
+  Qed.
+
+  (* one step from a bound state: bound again, the parameter list grows as the history says, and no file of another
+     identity changes - with NO freshness condition on New *)
+  Lemma step_any st d o st' d' x : BInv st -> step st d o = (st', d', x) ->
+    BInv st' /\ st_actual F st' = next_actual (st_actual F st) o
+    /\ params_of st' = next_params (params_of st) o
+    /\ (forall fn, snd fn <> st_actual F st -> d_find fname_eqb d' fn = d_find fname_eqb d fn).
+  Proof.
+    intros HB. destruct o as [p|p|i a|i v ts|i]; cbn [Values.step].
+    - intros H; inversion H; subst; clear H. destruct HB as [HF HV].
+      split; [split; assumption|]. cbn. repeat split; reflexivity.
+    - destruct (check_pid st d) as [st1 d1] eqn:C.
+      destruct (reset (st_pid F st1) (st_files F st1) d1 p) as [[files d2] v] eqn:R.
+      intros H; inversion H; subst; clear H.
+      destruct (check_pid_any _ _ _ _ HB C) as [[HF1 HV1] [Hpid [Hact [Hps HE]]]].
+      destruct (reset_ok _ _ _ _ _ _ _ HF1 R) as [HF2 [HE2 [Hp HV2]]].
+      rewrite Hpid in HE2.
+      pose proof (Ext_trans _ _ _ _ HE HE2) as [E1 [E2 E3]].
+      split; [|cbn [st_actual st_values next_actual next_params]; split; [exact Hact|split]].
+      + unfold BInv. cbn [st_pid st_files st_values]. split; [exact HF2|].
+        apply Forall_app. split; [exact HV1|constructor; [exact (proj1 HV2)|constructor]].
+      + rewrite map_app, Hps. cbn [map]. rewrite Hp. reflexivity.
+      + exact E3.
+    - destruct (check_pid st d) as [st1 d1] eqn:C.
+      destruct (check_pid_any _ _ _ _ HB C) as [[HF1 HV1] [Hpid [Hact [Hps [E1 [E2 E3]]]]]].
+      destruct (nth_error (st_values F st1) i) as [v|] eqn:N; intros H; inversion H; subst; clear H.
+      + assert (Hv : Bound (st_pid F st1) v) by (eapply Forall_forall in HV1; [eassumption | eapply nth_error_In; eassumption]).
+        cbn [st_actual st_values st_pid st_files next_actual next_params]. split; [|split; [exact Hact|split]].
+        * split; cbn [st_pid st_files st_values]; [exact HF1|]. apply Forall_upd_nth; [exact HV1|exact Hv].
+        * rewrite <- Hps. destruct (nth_error_split _ _ N) as [l1 [l2 [Hs Hl]]].
+          rewrite Hs, <- Hl, upd_nth_app, !map_app. reflexivity.
+        * intros fn Hfn. rewrite file_write_other; [apply E3, Hfn|].
+          intros ->. apply Hfn. rewrite Hv, Hpid. reflexivity.
+      + split; [split; assumption|]. split; [exact Hact|]. split; [exact Hps|exact E3].
+    - destruct (check_pid st d) as [st1 d1] eqn:C.
+      destruct (check_pid_any _ _ _ _ HB C) as [[HF1 HV1] [Hpid [Hact [Hps [E1 [E2 E3]]]]]].
+      destruct (nth_error (st_values F st1) i) as [w|] eqn:N; intros H; inversion H; subst; clear H.
+      + assert (Hv : Bound (st_pid F st1) w) by (eapply Forall_forall in HV1; [eassumption | eapply nth_error_In; eassumption]).
+        cbn [st_actual st_values st_pid st_files next_actual next_params]. split; [|split; [exact Hact|split]].
+        * split; cbn [st_pid st_files st_values]; [exact HF1|]. apply Forall_upd_nth; [exact HV1|exact Hv].
+        * rewrite <- Hps. destruct (nth_error_split _ _ N) as [l1 [l2 [Hs Hl]]].
+          rewrite Hs, <- Hl, upd_nth_app, !map_app. reflexivity.
+        * intros fn Hfn. rewrite file_write_other; [apply E3, Hfn|].
+          intros ->. apply Hfn. rewrite Hv, Hpid. reflexivity.
+      + split; [split; assumption|]. split; [exact Hact|]. split; [exact Hps|exact E3].
+    - destruct (check_pid st d) as [st1 d1] eqn:C.
+      intros H; inversion H; subst; clear H.
+      destruct (check_pid_any _ _ _ _ HB C) as [HB1 [Hpid [Hact [Hps [E1 [E2 E3]]]]]].
+      split; [exact HB1|]. split; [exact Hact|]. split; [exact Hps|exact E3].
+  Qed.
+
+  Lemma run_any h : forall st d st' d' xs, BInv st -> run st d h = (st', d', xs) -> BInv st'.
+  Proof.
+    induction h as [|o r IH]; intros st d st' d' xs HB; cbn [Values.run].
+    - intros H; inversion H; subst. exact HB.
+    - destruct (step st d o) as [[st1 d1] x] eqn:S. destruct (run st1 d1 r) as [[st2 d2] xs'] eqn:R.
+      intros H; inversion H; subst; clear H.
+      exact (IH _ _ _ _ _ (proj1 (step_any _ _ _ _ _ _ HB S)) R).
+  Qed.
+
+  Lemma reach_BInv pid0 d0 h st d xs : run (init_state F pid0) d0 h = (st, d, xs) -> BInv st.
+  Proof. exact (run_any h _ _ _ _ _ (BInv_init pid0)). Qed.
+
+  Lemma step_own_files_any st d o st' d' x : BInv st -> step st d o = (st', d', x) ->
+    forall fn, snd fn <> st_actual F st -> d_find fname_eqb d' fn = d_find fname_eqb d fn.
+  Proof. intros HB S. exact (proj2 (proj2 (proj2 (step_any _ _ _ _ _ _ HB S)))). Qed.
+
+  (* the identity check re-binds EVERY live value object - whatever their number per series - to the file of the current
+     identity, and a re-bound object's cache is what that file holds for its key AFTER the check (the cell exists) *)
+  Lemma check_pid_rebinds_all st d st1 d1 : BInv st -> check_pid st d = (st1, d1) ->
+    length (st_values F st1) = length (st_values F st)
+    /\ forall i v1, nth_error (st_values F st1) i = Some v1 ->
+         nth_error (params_of st) i = Some (v_params F v1)
+         /\ v_file F v1 = (prefix_of (v_params F v1), st_actual F st).
+  Proof.
+    intros HB C.
+    destruct (check_pid_any _ _ _ _ HB C) as [[HF1 HV1] [Hpid [Hact [Hps _]]]].
+    split; [rewrite <- (map_length (v_params F)), Hps, map_length; reflexivity|].
+    intros i v1 N.
+    split; [rewrite <- Hps, nth_error_map, N; reflexivity|].
+    rewrite <- Hpid. eapply Forall_forall in HV1; [exact HV1 | eapply nth_error_In; eassumption].
+  Qed.
+
+  (* an update through the i-th live value object writes the cell of ITS series in the file of the CURRENT identity and
+     changes no other cell of any file beyond the zero-initialisations of the re-binding: stated on the file names *)
+  Lemma update_lands_in_own_file st d i (a v : F) (ts : option F) o st' d' x :
+    BInv st -> o = Inc F i a \/ o = Set_ F i v ts -> step st d o = (st', d', x) ->
+    forall p, nth_error (params_of st) i = Some p ->
+      exists y, fs_cell d' (prefix_of p, st_actual F st) (p_key p) = Some y.
+  Proof.
+    intros HB Ho S p Hp.
+    assert (G : forall st1 d1 w, check_pid st d = (st1, d1) -> nth_error (st_values F st1) i = Some w ->
+                v_file F w = (prefix_of p, st_actual F st) /\ vkey w = p_key p).
+    { intros st1 d1 w C N. destruct (check_pid_rebinds_all _ _ _ _ HB C) as [_ H].
+      destruct (H _ _ N) as [H1 H2]. rewrite Hp in H1. inversion H1; subst p. split; [exact H2|reflexivity]. }
+    assert (Hlen : forall st1 d1, check_pid st d = (st1, d1) -> nth_error (st_values F st1) i <> None).
+    { intros st1 d1 C. destruct (check_pid_any _ _ _ _ HB C) as [_ [_ [_ [Hps _]]]].
+      intros N. rewrite <- Hps, nth_error_map, N in Hp. discriminate. }
+    destruct Ho as [-> | ->]; cbn [Values.step] in S;
+      destruct (check_pid st d) as [st1 d1] eqn:C;
+      (destruct (nth_error (st_values F st1) i) as [w|] eqn:N; [|exfalso; exact (Hlen _ _ eq_refl N)]);
+      inversion S; subst; clear S; destruct (G _ _ _ eq_refl N) as [G1 G2];
+      rewrite cell_write, G1, G2, (eqb_refl_of _ fname_eqb_eq), (eqb_refl_of _ key_eqb_eq); cbn [andb]; eexists; reflexivity.
+  Qed.
 End VP.
 
 (* ---------- integer-valued corollary: the sum over all pid files is conserved ---------- *)
